@@ -11,7 +11,7 @@ SLAVES = [0x08, 0x15, 0x25, 0x52, 0x75, 0x26, 0x35, 0x50]
 
 
 def msg_line(i, prio):
-    return 'r%d,pc,p%d,,,%02x,b509,%02x%02x,v,,UCH,,,' % (prio, i, SLAVES[i % len(SLAVES)], i, 0x10 + i)
+    return 'r%s,pc,p%d,,,%02x,b509,%02x%02x,v,,UCH,,,' % (prio if prio else '', i, SLAVES[i % len(SLAVES)], i, 0x10 + i)
 
 
 def shard(args):
@@ -29,6 +29,10 @@ def shard(args):
         lines = ['TIME\t%d' % (1700000000 + h * 100000), 'NEW\tm\t0']
         for i, p in prios.items():
             lines.append('LOAD\tm\t' + esc('\n' + msg_line(i, p) + '\n'))
+        # messages without poll priority: a client may give them one later (read -p PRIO)
+        idle = list(range(100, 100 + rng.randrange(0, 3)))
+        for i in idle:
+            lines.append('LOAD\tm\t' + esc('\n' + msg_line(i, 0) + '\n'))
         events = [('init', dict(prios))]
         plan = [None] * len(lines)
         total = rng.randrange(2000, 20000 if thorough else 6000)
@@ -48,7 +52,13 @@ def shard(args):
             done += k
             if rng.random() < 0.35 and done < total:
                 r = rng.random()
-                if r < 0.35 and present:
+                if r < 0.08 and idle and len(present) < 12:
+                    i = idle.pop()
+                    p = rng.randrange(1, 10)
+                    lines.append('SETPRIO\tm\tpc\tp%d\t%d' % (i, p))
+                    plan.append(('firstprio', i, p))
+                    present[i] = p
+                elif r < 0.35 and present:
                     i = rng.choice(sorted(present))
                     p = rng.randrange(1, 10)
                     lines.append('SETPRIO\tm\tpc\tp%d\t%d' % (i, p))
@@ -77,6 +87,9 @@ def shard(args):
                     for i, p in present.items():
                         lines.append('LOAD\tm\t' + esc('\n' + msg_line(i, p) + '\n'))
                         plan.append(None)
+                    for i in idle:
+                        lines.append('LOAD\tm\t' + esc('\n' + msg_line(i, 0) + '\n'))
+                        plan.append(None)
         rc, outl, err = run_server(exe, lines)
         if rc != 0 or len(outl) != len(lines):
             return stats, viol + ([('harness', 'poll shard rc=%s lines=%d/%d' % (rc, len(outl), len(lines)))] if rc == 0 else []), (rc, err) if rc else None
@@ -90,13 +103,15 @@ def shard(args):
         sel_index = 0
         npert = 0
         newmsg = None               # id of a message loaded after polling started and the ids it still has to let through
+        stale = h > 0               # g_lastPollOrder (process global) is ahead of the messages of this map: after a reload / an earlier history
+        fpstale = set()             # messages that got their first priority in that situation and were not selected since
         distinct_p = len(set(prios.values())) >= 2
 
         def settle():
             return 2 * len(cur) * 9 + 18
 
         def close_window():
-            nonlocal win, win_n, win_new
+            nonlocal win, win_n, win_new, win_fp
             N = len(cur)
             if win_n >= 50 * N and N >= 1:
                 tot = sum(Fraction(1, p) for p in cur.values())
@@ -104,15 +119,17 @@ def shard(args):
                 for i, p in cur.items():
                     exp = win_n * Fraction(1, p) / tot
                     if abs(win.get(i, 0) - exp) > N + 2:
-                        viol.append(('share-not-proportional' + (':after-new-message' if win_new else ''), 'history seed=%d #%d: in a perturbation-free window of %d selections message p%d '
+                        viol.append(('share-not-proportional' + (':first-priority-after-reload' if (i in fpstale or win_fp) else ':after-new-message' if win_new else ''), 'history seed=%d #%d: in a perturbation-free window of %d selections message p%d '
                                      '(priority %d among %s) was selected %d times, expected %.1f +-%d' % (
                                          seed, h, win_n, i, p, sorted(cur.values()), win.get(i, 0), float(exp), N + 2)))
                         break
             win = {}
             win_n = 0
             win_new = bool(newmsg)
+            win_fp = bool(fpstale)
 
         win_new = False
+        win_fp = False
         for pl, o in zip(plan, outl):
             if pl is None:
                 continue
@@ -139,11 +156,14 @@ def shard(args):
                         gap = sel_index - lastj - (1 if j == i else 0)
                         slack = N + 18 if since_pert < settle() else 0
                         if gap > bound + slack and not j == i:
-                            viol.append(('starvation' + (':after-new-message' if newmsg else ''), 'history seed=%d #%d: message p%d (priority %d among %s) not selected for %d selections '
+                            viol.append(('starvation' + (':first-priority-after-reload' if j in fpstale else ':after-new-message' if newmsg else ''), 'history seed=%d #%d: message p%d (priority %d among %s) not selected for %d selections '
                                          '(bound %d%s), %d selections after the last perturbation' % (
                                              seed, h, j, pj, sorted(cur.values()), gap, bound, '+%d settling' % slack if slack else '', since_pert)))
                             last_sel[j] = sel_index   # report once
                     last_sel[i] = sel_index
+                    if fpstale:
+                        win_fp = True     # the shares of everybody are distorted while such a message waits
+                    fpstale.discard(i)
                     if newmsg:
                         # the monopoly of a late-added message is over once every other message was selected again after it
                         if i != newmsg[0]:
@@ -165,6 +185,17 @@ def shard(args):
             stats['perturbation_kinds'][pl[0]] = stats['perturbation_kinds'].get(pl[0], 0) + 1
             if pl[0] == 'setprio':
                 cur[pl[1]] = int(o[2]) if len(o) > 2 and o[2].isdigit() else pl[2]
+            elif pl[0] == 'firstprio':
+                # an existing message gets its first priority: it joins the poll set and must neither starve nor monopolise
+                if len(o) > 2 and o[1] == '1' and o[2].isdigit() and int(o[2]) > 0:
+                    cur[pl[1]] = int(o[2])
+                    last_sel[pl[1]] = sel_index
+                    stats['first_priorities'] = stats.get('first_priorities', 0) + 1
+                    if stale:
+                        fpstale.add(pl[1])
+                        stats['first_priorities_after_reload'] = stats.get('first_priorities_after_reload', 0) + 1
+                else:
+                    viol.append(('first-priority-not-set', 'history seed=%d #%d: SETPRIO on unpolled p%d answered %s' % (seed, h, pl[1], o)))
             elif pl[0] == 'new':
                 if o[1] == '0':
                     cur[pl[1]] = pl[2]
@@ -178,6 +209,7 @@ def shard(args):
             elif pl[0] == 'reload':
                 last_sel = {k: sel_index for k in cur}
                 newmsg = None
+                stale = True
         close_window()
         stats['perturbations'] += npert
         if distinct_p and npert >= 1:
@@ -190,8 +222,8 @@ def shard(args):
 def main():
     c = Check('C17')
     exe = build_msg_server()
-    nsh = 32
-    nhist = 950 if c.thorough else 10
+    nsh = 64
+    nhist = 475 if c.thorough else 5
     tot = pool_run(c, shard, [(exe, c.seed * 1000 + i, nhist, c.thorough) for i in range(nsh)])
     c.coverage.update({
         'evaluations': int(tot.get('evaluations', 0)),
